@@ -679,6 +679,21 @@ Proof.
   - cbn [get]. destruct (str_eqb k t); [reflexivity|exact IH].
 Qed.
 
+Lemma get_put_same t v l : get t (put t v l) = Some v.
+Proof.
+  induction l as [|[k x] l IH]; cbn [put get]; [now rewrite str_eqb_refl|].
+  destruct (str_eqb k t) eqn:E; cbn [get]; rewrite E; [reflexivity|exact IH].
+Qed.
+
+Lemma get_put_other t t' v l : t' <> t -> get t (put t' v l) = get t l.
+Proof.
+  intros Hne. induction l as [|[k x] l IH]; cbn [put get].
+  - destruct (str_eqb t' t) eqn:E; [apply str_eqb_eq in E; congruence|reflexivity].
+  - destruct (str_eqb k t') eqn:E; cbn [get].
+    + apply str_eqb_eq in E. subst k. destruct (str_eqb t' t) eqn:E2; [apply str_eqb_eq in E2; congruence|reflexivity].
+    + destruct (str_eqb k t); [reflexivity|exact IH].
+Qed.
+
 Lemma del_tags_get t ts : forall (x y : msg),
   ~ In t ts -> del_tags ts x = inl y -> get t (mtags y) = get t (mtags x).
 Proof.
@@ -722,17 +737,14 @@ Proof.
   apply om_bind_lift. intros n _. apply om_bind_lift. intros t _.
   destruct (_ || _); [apply IH|].
   cbv zeta. apply om_bind; [destruct (_ <? _); [apply om_retrans, gap_fill_skip|apply om_ret]|intros _].
-  apply om_bind_lift. intros m1 H1. apply om_bind_lift. intros v52 _.
-  apply om_bind_lift. intros m2 H2. apply om_bind_lift. intros m3 H3.
+  apply om_bind_lift. intros v52 _. apply om_bind_lift. intros m3 H3.
   apply om_bind; [|intros _; apply IH].
   apply om_retrans. unfold skip_journal.
   assert (get T43 (mtags m3) = Some S_Y) as ->; [|reflexivity].
-  rewrite (del_tags_get T43 [T35; T8; T9; T52; T49; T56; T10] m2 m3);
+  rewrite (del_tags_get T43 [T35; T8; T9; T52; T49; T56; T10]
+             (put_tag T122 v52 (put_tag T43 S_Y (decode_row c r))) m3);
     [|cbn; intros [E|[E|[E|[E|[E|[E|[E|[]]]]]]]]; discriminate|exact H3].
-  unfold set_tag in H1, H2.
-  destruct (has T43 (mtags (decode_row c r))) eqn:E1; [discriminate|]. inversion H1; subst m1. clear H1.
-  cbn [mtags] in H2. destruct (has T122 _); [discriminate|]. inversion H2; subst m2. cbn [mtags].
-  apply get_app_keep. apply get_app_new. unfold has in E1. destruct (get T43 _); [discriminate|reflexivity].
+  cbn [put_tag mtags]. rewrite get_put_other; [apply get_put_same|discriminate].
 Qed.
 
 Lemma replay_loop_keeps_alive c rows : forall a b, keeps alive (replay_loop c rows a b).
@@ -740,7 +752,7 @@ Proof.
   induction rows as [|r rows IH]; intros a b; cbn [replay_loop]; cbv zeta; [keeps_tac|].
   keeps_step; [keeps_tac|]. keeps_step; [keeps_tac|]. destruct (_ || _); [apply IH|].
   cbv zeta. keeps_step; [destruct (_ <? _); [apply send_msg_keeps_alive|keeps_tac]|].
-  keeps_step; [keeps_tac|]. keeps_step; [keeps_tac|]. keeps_step; [keeps_tac|]. keeps_step; [keeps_tac|].
+  keeps_step; [keeps_tac|]. keeps_step; [keeps_tac|].
   keeps_step; [apply send_msg_keeps_alive|apply IH].
 Qed.
 
@@ -1358,3 +1370,15 @@ Proof.
   split; [rewrite Dn; exact Hn'|].
   destruct Dw as [Dw|Dw]; auto.
 Qed.
+
+(* R6a: a journaled application message that itself carries 43=N / 122 is replayed with 43=Y and 122 = its
+   original SendingTime (the tags keep their position); the reply is not aborted *)
+Definition o_app_pdn := OSend (mkMsg (S "D") [(S "11", S "X"); (T43, S "N"); (T122, S "OLD"); (S "55", S "SYM")]).
+Lemma replay_overwrites_possdup :
+  let l := run cfgS w_acceptor [i_logon 1; o_app_pdn; i_resend 2 2 0] in
+  map (fun wm => (get T34 (mtags wm), get T43 (mtags wm), get T122 (mtags wm))) (wires (trace l))
+  = [(Some (S "1"), None, None); (Some (S "2"), Some (S "N"), Some (S "OLD"));
+     (Some (S "2"), Some (S "Y"), Some (c_time cfgS))]
+  /\ st (final cfgS w_acceptor [i_logon 1; o_app_pdn; i_resend 2 2 0]) = ST_ACTIVE
+  /\ new_numbers (trace l) = [S "1"; S "2"].
+Proof. cbn zeta. repeat split; vm_compute; reflexivity. Qed.
